@@ -6,10 +6,14 @@
    honest_issuance_proof_accepted -- the whole issuance proof (trusted-party proof, multi-secret proof, per-attribute opening
    and range proofs, opening and range proof of the randomness) that the holder generates is accepted, for every U;
    (3) gating: blind_sign returns only if verify_proof returned true (otherwise the Rust code panics = refusal).
-   Rejection of mismatching / edited proofs: correspondence + sweep (all non-empty U for n <= 3 / 5). *)
+   (4) soundness core of the issuance sigma protocols (ClSound2.v): what acceptance of nispm / nisp2 says about the responses,
+   their SPECIAL SOUNDNESS (nisp2: the same exponents under the issuer's bases and under the commitment key) and RIGIDITY.
+   Rejection of mismatching / edited proofs beyond that: correspondence + sweep (all non-empty U for n <= 3 / 5). *)
 From ZK Require Import Cl ClArith ClSig ClMore ClGroup ClBoudot ModelLemmas ClSpok ClSpok2 ClSpok3 ClDraws ClZk.
 From ZK Require Import ClTies.
 From ZK Require Import ClUpdate.
+From ZK Require Import ClSound ClSound2.
+From Coq Require Import List. Import ListNotations.
 
 Theorem C14_cl_blind_sign_gated :
   forall CS BP pk sk bases zk revealed C Ct ck U ridx ds b ds',
@@ -278,3 +282,272 @@ Check (C14_zkpok_accepts_lengths :
   zkpok_verify CS BP p C Ct pk bases ck U = Ok true ->
   length (zk_pmi p) = length U /\ length (zk_rpmi p) = length U).
 Print Assumptions C14_zkpok_accepts_lengths.
+
+(* acceptance of the multi-secret proof: its first message is the one recomputed from the responses *)
+Theorem C14_nispm_accepts :
+  (forall n : Z,
+0 < n ->
+forall (p : nispm) (c : commitment) (pk : pubkey) 
+  (bases : list Z) (U : option (list N)) (sel : list (Z * Z))
+  (bi Ci : Z),
+pk_N pk = n ->
+mapM (nthZ bases) (option_default [0%N] U) = Ok (map fst sel) ->
+units n sel ->
+invert (pk_b pk) n = Some bi ->
+invert (c_value c) n = Some Ci ->
+nispm_verify p c pk bases U = Ok true ->
+length (nm_s1 p) = length sel /\
+vW n sel (pk_b pk) bi (c_value c) Ci (nm_s1 p) 
+  (nm_s2 p) (nm_chal sel (pk_b pk) p c) = nm_t p mod n)%Z.
+Proof. exact nispm_accepts. Qed.
+Check (C14_nispm_accepts :
+  (forall n : Z,
+0 < n ->
+forall (p : nispm) (c : commitment) (pk : pubkey) 
+  (bases : list Z) (U : option (list N)) (sel : list (Z * Z))
+  (bi Ci : Z),
+pk_N pk = n ->
+mapM (nthZ bases) (option_default [0%N] U) = Ok (map fst sel) ->
+units n sel ->
+invert (pk_b pk) n = Some bi ->
+invert (c_value c) n = Some Ci ->
+nispm_verify p c pk bases U = Ok true ->
+length (nm_s1 p) = length sel /\
+vW n sel (pk_b pk) bi (c_value c) Ci (nm_s1 p) 
+  (nm_s2 p) (nm_chal sel (pk_b pk) p c) = nm_t p mod n)%Z).
+Print Assumptions C14_nispm_accepts.
+
+(* one first message answered for two challenges: prod a_i^(ds_i) b^(dr) == C^(dc) *)
+Theorem C14_nispm_special_soundness :
+  (forall n : Z,
+0 < n ->
+forall (sel : list (Z * Z)) (b bi C Ci : Z) 
+  (s1 : list Z) (s2 c : Z) (s1' : list Z) (s2' c' : Z),
+units n sel ->
+invert b n = Some bi ->
+invert C n = Some Ci ->
+length s1 = length sel ->
+length s1' = length sel ->
+vW n sel b bi C Ci s1 s2 c = vW n sel b bi C Ci s1' s2' c' ->
+Zdiv.eqm n (gprod n sel (vsub s1 s1') * gp n b bi (s2 - s2'))
+  (gp n C Ci (c - c')))%Z.
+Proof. exact nispm_special_soundness. Qed.
+Check (C14_nispm_special_soundness :
+  (forall n : Z,
+0 < n ->
+forall (sel : list (Z * Z)) (b bi C Ci : Z) 
+  (s1 : list Z) (s2 c : Z) (s1' : list Z) (s2' c' : Z),
+units n sel ->
+invert b n = Some bi ->
+invert C n = Some Ci ->
+length s1 = length sel ->
+length s1' = length sel ->
+vW n sel b bi C Ci s1 s2 c = vW n sel b bi C Ci s1' s2' c' ->
+Zdiv.eqm n (gprod n sel (vsub s1 s1') * gp n b bi (s2 - s2'))
+  (gp n C Ci (c - c')))%Z).
+Print Assumptions C14_nispm_special_soundness.
+
+(* two accepted proofs with the same first message differ by a relation between the bases *)
+Theorem C14_nispm_rigid :
+  (forall n : Z,
+0 < n ->
+forall (p p' : nispm) (c : commitment) (pk : pubkey) 
+  (bases : list Z) (U : option (list N)) (sel : list (Z * Z))
+  (bi Ci : Z),
+pk_N pk = n ->
+mapM (nthZ bases) (option_default [0%N] U) = Ok (map fst sel) ->
+units n sel ->
+invert (pk_b pk) n = Some bi ->
+invert (c_value c) n = Some Ci ->
+nispm_verify p c pk bases U = Ok true ->
+nispm_verify p' c pk bases U = Ok true ->
+nm_t p = nm_t p' ->
+Zdiv.eqm n
+  (gprod n sel (vsub (nm_s1 p) (nm_s1 p')) *
+   gp n (pk_b pk) bi (nm_s2 p - nm_s2 p')) 1)%Z.
+Proof. exact nispm_rigid. Qed.
+Check (C14_nispm_rigid :
+  (forall n : Z,
+0 < n ->
+forall (p p' : nispm) (c : commitment) (pk : pubkey) 
+  (bases : list Z) (U : option (list N)) (sel : list (Z * Z))
+  (bi Ci : Z),
+pk_N pk = n ->
+mapM (nthZ bases) (option_default [0%N] U) = Ok (map fst sel) ->
+units n sel ->
+invert (pk_b pk) n = Some bi ->
+invert (c_value c) n = Some Ci ->
+nispm_verify p c pk bases U = Ok true ->
+nispm_verify p' c pk bases U = Ok true ->
+nm_t p = nm_t p' ->
+Zdiv.eqm n
+  (gprod n sel (vsub (nm_s1 p) (nm_s1 p')) *
+   gp n (pk_b pk) bi (nm_s2 p - nm_s2 p')) 1)%Z).
+Print Assumptions C14_nispm_rigid.
+
+(* the trusted-party proof: the two first messages the verifier recomputes and hashes *)
+Theorem C14_nisp2_verify_spec :
+  (forall n1 n2 : Z,
+0 < n1 ->
+0 < n2 ->
+forall (p : nisp2) (c1 c2 : commitment) (pk : pubkey) 
+  (bases : list Z) (ck : cpubkey) (U : list N)
+  (sel1 sel2 : list (Z * Z)) (bi hi C1i C2i : Z),
+pk_N pk = n1 ->
+ck_N ck = n2 ->
+mapM (nthZ bases) U = Ok (map fst sel1) ->
+units n1 sel1 ->
+mapM (nthZ (ck_g ck)) U = Ok (map fst sel2) ->
+units n2 sel2 ->
+invert (pk_b pk) n1 = Some bi ->
+invert (ck_h ck) n2 = Some hi ->
+invert (c_value c1) n1 = Some C1i ->
+invert (c_value c2) n2 = Some C2i ->
+length (n2_d p) = length U ->
+nisp2_verify p c1 c2 pk bases ck U =
+Ok
+  (n2_chal p =?
+   hash_int
+     (str_cat
+        [n2_W1 n1 sel1 (pk_b pk) bi (c_value c1) C1i p;
+         n2_W2 n2 sel2 (ck_h ck) hi (c_value c2) C2i p])))%Z.
+Proof. exact nisp2_verify_spec. Qed.
+Check (C14_nisp2_verify_spec :
+  (forall n1 n2 : Z,
+0 < n1 ->
+0 < n2 ->
+forall (p : nisp2) (c1 c2 : commitment) (pk : pubkey) 
+  (bases : list Z) (ck : cpubkey) (U : list N)
+  (sel1 sel2 : list (Z * Z)) (bi hi C1i C2i : Z),
+pk_N pk = n1 ->
+ck_N ck = n2 ->
+mapM (nthZ bases) U = Ok (map fst sel1) ->
+units n1 sel1 ->
+mapM (nthZ (ck_g ck)) U = Ok (map fst sel2) ->
+units n2 sel2 ->
+invert (pk_b pk) n1 = Some bi ->
+invert (ck_h ck) n2 = Some hi ->
+invert (c_value c1) n1 = Some C1i ->
+invert (c_value c2) n2 = Some C2i ->
+length (n2_d p) = length U ->
+nisp2_verify p c1 c2 pk bases ck U =
+Ok
+  (n2_chal p =?
+   hash_int
+     (str_cat
+        [n2_W1 n1 sel1 (pk_b pk) bi (c_value c1) C1i p;
+         n2_W2 n2 sel2 (ck_h ck) hi (c_value c2) C2i p])))%Z).
+Print Assumptions C14_nisp2_verify_spec.
+
+(* ... specially sound with the SAME exponents under both families of bases (the commitment under the commitment key hides the attributes the issuer signs) *)
+Theorem C14_nisp2_special_soundness :
+  (forall n1 n2 : Z,
+0 < n1 ->
+0 < n2 ->
+forall (sel1 sel2 : list (Z * Z)) (b bi h hi C1 C1i C2 C2i : Z)
+  (p p' : nisp2),
+units n1 sel1 ->
+units n2 sel2 ->
+invert b n1 = Some bi ->
+invert h n2 = Some hi ->
+invert C1 n1 = Some C1i ->
+invert C2 n2 = Some C2i ->
+length (n2_d p) = length sel1 ->
+length (n2_d p') = length sel1 ->
+length sel2 = length sel1 ->
+n2_W1 n1 sel1 b bi C1 C1i p = n2_W1 n1 sel1 b bi C1 C1i p' ->
+n2_W2 n2 sel2 h hi C2 C2i p = n2_W2 n2 sel2 h hi C2 C2i p' ->
+Zdiv.eqm n1
+  (gprod n1 sel1 (vsub (n2_d p) (n2_d p')) *
+   gp n1 b bi (n2_d1 p - n2_d1 p'))
+  (gp n1 C1 C1i (n2_chal p - n2_chal p')) /\
+Zdiv.eqm n2
+  (gprod n2 sel2 (vsub (n2_d p) (n2_d p')) *
+   gp n2 h hi (n2_d2 p - n2_d2 p'))
+  (gp n2 C2 C2i (n2_chal p - n2_chal p')))%Z.
+Proof. exact nisp2_special_soundness. Qed.
+Check (C14_nisp2_special_soundness :
+  (forall n1 n2 : Z,
+0 < n1 ->
+0 < n2 ->
+forall (sel1 sel2 : list (Z * Z)) (b bi h hi C1 C1i C2 C2i : Z)
+  (p p' : nisp2),
+units n1 sel1 ->
+units n2 sel2 ->
+invert b n1 = Some bi ->
+invert h n2 = Some hi ->
+invert C1 n1 = Some C1i ->
+invert C2 n2 = Some C2i ->
+length (n2_d p) = length sel1 ->
+length (n2_d p') = length sel1 ->
+length sel2 = length sel1 ->
+n2_W1 n1 sel1 b bi C1 C1i p = n2_W1 n1 sel1 b bi C1 C1i p' ->
+n2_W2 n2 sel2 h hi C2 C2i p = n2_W2 n2 sel2 h hi C2 C2i p' ->
+Zdiv.eqm n1
+  (gprod n1 sel1 (vsub (n2_d p) (n2_d p')) *
+   gp n1 b bi (n2_d1 p - n2_d1 p'))
+  (gp n1 C1 C1i (n2_chal p - n2_chal p')) /\
+Zdiv.eqm n2
+  (gprod n2 sel2 (vsub (n2_d p) (n2_d p')) *
+   gp n2 h hi (n2_d2 p - n2_d2 p'))
+  (gp n2 C2 C2i (n2_chal p - n2_chal p')))%Z).
+Print Assumptions C14_nisp2_special_soundness.
+
+Theorem C14_nisp2_rigid :
+  (forall n1 n2 : Z,
+0 < n1 ->
+0 < n2 ->
+forall (p p' : nisp2) (c1 c2 : commitment) 
+  (pk : pubkey) (bases : list Z) (ck : cpubkey) 
+  (U : list N) (sel1 sel2 : list (Z * Z)) (bi hi C1i C2i : Z),
+pk_N pk = n1 ->
+ck_N ck = n2 ->
+mapM (nthZ bases) U = Ok (map fst sel1) ->
+units n1 sel1 ->
+mapM (nthZ (ck_g ck)) U = Ok (map fst sel2) ->
+units n2 sel2 ->
+invert (pk_b pk) n1 = Some bi ->
+invert (ck_h ck) n2 = Some hi ->
+invert (c_value c1) n1 = Some C1i ->
+invert (c_value c2) n2 = Some C2i ->
+nisp2_verify p c1 c2 pk bases ck U = Ok true ->
+nisp2_verify p' c1 c2 pk bases ck U = Ok true ->
+n2_chal p = n2_chal p' ->
+Zdiv.eqm n1
+  (gprod n1 sel1 (vsub (n2_d p) (n2_d p')) *
+   gp n1 (pk_b pk) bi (n2_d1 p - n2_d1 p')) 1 /\
+Zdiv.eqm n2
+  (gprod n2 sel2 (vsub (n2_d p) (n2_d p')) *
+   gp n2 (ck_h ck) hi (n2_d2 p - n2_d2 p')) 1 \/
+(exists a b : list Z,
+   a <> b /\ hash_int (str_cat a) = hash_int (str_cat b)))%Z.
+Proof. exact nisp2_rigid. Qed.
+Check (C14_nisp2_rigid :
+  (forall n1 n2 : Z,
+0 < n1 ->
+0 < n2 ->
+forall (p p' : nisp2) (c1 c2 : commitment) 
+  (pk : pubkey) (bases : list Z) (ck : cpubkey) 
+  (U : list N) (sel1 sel2 : list (Z * Z)) (bi hi C1i C2i : Z),
+pk_N pk = n1 ->
+ck_N ck = n2 ->
+mapM (nthZ bases) U = Ok (map fst sel1) ->
+units n1 sel1 ->
+mapM (nthZ (ck_g ck)) U = Ok (map fst sel2) ->
+units n2 sel2 ->
+invert (pk_b pk) n1 = Some bi ->
+invert (ck_h ck) n2 = Some hi ->
+invert (c_value c1) n1 = Some C1i ->
+invert (c_value c2) n2 = Some C2i ->
+nisp2_verify p c1 c2 pk bases ck U = Ok true ->
+nisp2_verify p' c1 c2 pk bases ck U = Ok true ->
+n2_chal p = n2_chal p' ->
+Zdiv.eqm n1
+  (gprod n1 sel1 (vsub (n2_d p) (n2_d p')) *
+   gp n1 (pk_b pk) bi (n2_d1 p - n2_d1 p')) 1 /\
+Zdiv.eqm n2
+  (gprod n2 sel2 (vsub (n2_d p) (n2_d p')) *
+   gp n2 (ck_h ck) hi (n2_d2 p - n2_d2 p')) 1 \/
+(exists a b : list Z,
+   a <> b /\ hash_int (str_cat a) = hash_int (str_cat b)))%Z).
+Print Assumptions C14_nisp2_rigid.
